@@ -336,8 +336,8 @@ func c50Subsets(alpha []int) [][]int {
 }
 
 // c50Cases builds the case list. One block costs tens of milliseconds (the index writer allocates
-// several large buffers per block), so the families are sized by measured cost: about 500 cases in
-// the quick tier, about 5500 in the thorough tier.
+// several large buffers per block), so the families are sized by measured cost: about 330 cases in
+// the quick tier, about 2800 in the thorough tier.
 func c50Cases(r *vx.Run) (cases []c50Case, desc []string) {
 	all := []int{0, 1, 2, 3, 4, 5, 6} // indices into c50TS
 	th := r.Thorough()
@@ -360,23 +360,20 @@ func c50Cases(r *vx.Run) (cases []c50Case, desc []string) {
 	// E1: one series, every subset of the 7 timestamps
 	for _, s := range c50Subsets(all) {
 		add(c50Case{Series: [][]int{s}, MaxDur: c50R, MissingTS: -1})
-		if th || len(s) <= 2 {
+		if th || len(s) <= 1 {
 			add(c50Case{Series: [][]int{s}, MaxDur: c50R, MaxSamples: 1, MissingTS: -1})
 			add(c50Case{Series: [][]int{s}, MaxDur: 2 * c50R, MissingTS: -1})
 			add(c50Case{Series: [][]int{s}, MaxDur: 3 * c50R, MissingTS: -1})
 		}
-		if th {
-			add(c50Case{Series: [][]int{s}, MaxDur: 3 * c50R, MaxSamples: 1, MissingTS: -1})
-		}
 	}
-	note("E1 one series x all 128 subsets of the 7 timestamps at max-block-duration R; subsets of size <=2 (thorough: all) also with 1 sample per appender and max-block-duration 2R, 3R")
+	note("E1 one series x all 128 subsets of the 7 timestamps at max-block-duration R; subsets of size <=1 (thorough: all) also with 1 sample per appender and with max-block-duration 2R, 3R")
 	// E2: one series, every non-identity line order
 	for _, s := range c50Subsets(all) {
 		if len(s) < 2 || len(s) > 3 {
 			continue
 		}
-		if !th && len(s) == 3 && (s[0] < 1 || s[2] > 4) {
-			continue // quick: size-3 subsets only over {-1,0,R-1,R}
+		if !th && len(s) == 3 && (s[0] < 2 || s[2] > 4) {
+			continue // quick: size-3 subsets only over {0,R-1,R}
 		}
 		vx.Perms(len(s), func(p []int) bool {
 			ident := true
@@ -387,14 +384,14 @@ func c50Cases(r *vx.Run) (cases []c50Case, desc []string) {
 			}
 			if !ident {
 				add(c50Case{Series: [][]int{s}, Order: append([]int(nil), p...), MaxDur: c50R, MissingTS: -1})
-				if th {
+				if th && len(s) == 2 {
 					add(c50Case{Series: [][]int{s}, Order: append([]int(nil), p...), MaxDur: 3 * c50R, MissingTS: -1})
 				}
 			}
 			return true
 		})
 	}
-	note("E2 one series x subsets of size 2 and 3 (quick: size 3 only over {-1,0,R-1,R}) x every other line order (thorough: also at 3R)")
+	note("E2 one series x subsets of size 2 and 3 (quick: size 3 only over {0,R-1,R}) x every other line order (thorough: size 2 also at 3R)")
 	// E3: two series, series-major and interleaved line order
 	two := func(alpha []int, dur int64) {
 		for _, s1 := range c50Subsets(alpha) {
@@ -417,13 +414,13 @@ func c50Cases(r *vx.Run) (cases []c50Case, desc []string) {
 		note("E3 two series x subsets of %v each at max-block-duration %dh, series-major and interleaved", tsOf(alpha), dur/3600000)
 	}
 	if th {
-		two([]int{0, 1, 2, 3, 4}, c50R)
-		two([]int{1, 2, 4, 6}, 3*c50R)
+		two([]int{0, 1, 2, 4}, c50R)
+		two([]int{2, 3, 4, 6}, 3*c50R)
 	} else {
-		two([]int{1, 2, 4}, c50R)
+		two([]int{1, 4}, c50R)
 	}
 	// E4: three series
-	a3 := vx.Pick(r, []int{1, 4}, []int{1, 2, 4})
+	a3 := vx.Pick(r, []int{2, 4}, []int{1, 2, 4})
 	for _, s1 := range c50Subsets(a3) {
 		for _, s2 := range c50Subsets(a3) {
 			for _, s3 := range c50Subsets(a3) {
@@ -437,7 +434,7 @@ func c50Cases(r *vx.Run) (cases []c50Case, desc []string) {
 	for _, s1 := range c50Subsets(a5) {
 		for _, s2 := range c50Subsets(a5) {
 			n := len(s1) + len(s2)
-			if n < 2 || n > 4 || len(s1) == 0 || len(s2) == 0 {
+			if n < 2 || n > vx.Pick(r, 3, 4) || len(s1) == 0 || len(s2) == 0 {
 				continue
 			}
 			vx.Perms(n, func(p []int) bool {
@@ -446,7 +443,7 @@ func c50Cases(r *vx.Run) (cases []c50Case, desc []string) {
 			})
 		}
 	}
-	note("E5 two series over %v, 2..4 lines in total, every line order", tsOf(a5))
+	note("E5 two series over %v, 2..%d lines in total, every line order", tsOf(a5), vx.Pick(r, 3, 4))
 	// E6: each line in turn without timestamp
 	a6 := vx.Pick(r, []int{1, 2, 4}, []int{1, 2, 4, 6})
 	for _, s1 := range c50Subsets(a6) {
@@ -458,6 +455,8 @@ func c50Cases(r *vx.Run) (cases []c50Case, desc []string) {
 		}
 	}
 	note("E6 two series (first over %v), each line in turn printed without timestamp", tsOf(a6))
+	// simplest first over all families: fewest lines first (stable)
+	sort.SliceStable(cases, func(i, j int) bool { return len(cases[i].lines()) < len(cases[j].lines()) })
 	return cases, desc
 }
 
